@@ -61,7 +61,17 @@ Definition C29_statement : Prop :=
   /\ (forall w name, valid_path name = false ->
         (exists e, fs_open t w name = Err e) /\ (exists e, fs_stat t w name = Err e))
   (* ---- 5. io/fs contracts: fs.Stat is the same as Open+Stat ---- *)
-  /\ (forall w name o, fs_open t w name = Ok o -> fs_stat t w name = Ok (opened_info o)).
+  /\ (forall w name o, fs_open t w name = Ok o -> fs_stat t w name = Ok (opened_info o))
+  (* ---- 6. views are values.  run st ops: a history of ChangeDir / Open / Stat / ReadDir calls on the
+          views (objects) of a store, st = [new_view t w] being the store after New(c, t, w); ask st h q
+          is what view h answers to the query q; answer v q is Open/Stat/ReadDir of the view's value
+          (clauses 1-5 speak about exactly these: answer (new_view t w) (QOpen n) = fs_open t w n). ---- *)
+  /\ ((forall w pre q, ask (fst (run [new_view t w] pre)) 0 q = answer (new_view t w) q)
+      /\ (forall st pre h v, nth_error st h = Some v ->
+            nth_error (fst (run st pre)) h = Some v /\ forall q, ask (fst (run st pre)) h q = answer v q)
+      /\ (forall st h v d, nth_error st h = Some v ->
+            step st (VChdir h d) = (st ++ [(fst v, d)], BView (length st)))
+      /\ (forall st ops, Forall2 (stable_obs (fst (run st ops))) ops (snd (run st ops)))).
 
 (* Clauses 4 and 5 fail on the unchanged code (findings invalid-path-accepted and
    stat-does-not-follow-symlink): Open("/foo") succeeds on a tree with a file foo. *)
@@ -69,10 +79,12 @@ Theorem C29_refuted : ~ C29_statement.
 Proof. exact statement_refuted. Qed.
 Print Assumptions C29_refuted.
 
-(* Everything else holds for every well-formed tree; clause 5 for every name that is not a symlink. *)
+(* Everything else holds for every well-formed tree; clause 5 for every name that is not a symlink;
+   clause 6 for every tree, every store of views and every history (ChangeDir as translated from
+   fs.go by gotrans: Gen.CasFs.chdir_fresh / chdir_wd). *)
 Theorem C29_partial :
   forall t, wf_tree t ->
-    faithful_view t /\ fails_cleanly t /\ readdir_contract /\ stat_agrees_with_open_nonlink t.
+    faithful_view t /\ fails_cleanly t /\ readdir_contract /\ stat_agrees_with_open_nonlink t /\ views_are_values t.
 Proof. exact statement_partial. Qed.
 Print Assumptions C29_partial.
 
@@ -99,3 +111,16 @@ Proof.
   split; [exact ex_tree_wf|]. split; [exact ex_resolves_up1|].
   vm_compute. repeat split.
 Qed.
+
+(* Clause 6 on ex_tree: ChangeDir("d") on the root view gives view 1; the root view (0) still answers
+   from the root afterwards, view 1 answers from d, and a second ChangeDir on view 1 is root-relative. *)
+Example C29_views_nonvacuous :
+  snd (run [new_view ex_tree (WNew dot)]
+           [VAsk 0 (QStat (s "foo")); VChdir 0 (s "d"); VAsk 1 (QStat (s "f")); VAsk 0 (QStat (s "foo"));
+            VAsk 0 (QStat (s "f")); VAsk 1 (QStat (s "foo")); VChdir 1 (s "."); VAsk 2 (QStat (s "foo"));
+            VAsk 1 (QOpen (s "up")); VAsk 7 (QStat (s "foo"))])
+  = [BStat (Ok (mk_info (s "foo") 3 0 None)); BView 1; BStat (Ok (mk_info (s "f") 4 420 None));
+     BStat (Ok (mk_info (s "foo") 3 0 None)); BStat (Err ENotExist); BStat (Err ENotExist); BView 2;
+     BStat (Ok (mk_info (s "foo") 3 0 None)); BOpen (Ok (OFile (mk_info (s "foo") 3 0 None) (s "bar"))); BNoView]
+  /\ Gen.CasFs.chdir_fresh = true.
+Proof. vm_compute. repeat split. Qed.
